@@ -114,7 +114,10 @@ func c18Run(c *core.Ctx) {
 	modes := []int64{0, 0o644, 0o7777}
 	ids := []int{0, 1000, 2097151, 2097152}
 	sizes := []int64{0, 1, 511, 512, 8<<30 - 1, 8 << 30}
-	types := []byte{tar.TypeReg, tar.TypeDir, tar.TypeSymlink, tar.TypeChar, tar.TypeFifo}
+	// POSIX types, and letters: A-Z are reserved for vendor extensions and real
+	// writers put them into the first block (GNU volume label 'V', multi-volume
+	// continuation 'M', dump directory 'D', old long names 'N'; Solaris 'X' / 'E' / 'A', star 'I')
+	types := []byte{tar.TypeReg, tar.TypeDir, tar.TypeSymlink, tar.TypeChar, tar.TypeFifo, tar.TypeLink, tar.TypeBlock, tar.TypeCont, 'V', 'M', 'D', 'N', 'X', 'E', 'A', 'I', 'Z'}
 	mtimes := []time.Time{time.Unix(0, 0), time.Unix(1700000000, 0), time.Unix(1<<33, 0)}
 	owners := []string{"", strings.Repeat("u", 31)}
 	if !c.Thorough() {
@@ -151,10 +154,10 @@ func c18Run(c *core.Ctx) {
 											continue
 										}
 									}
-									if tf == tar.TypeSymlink {
+									if tf == tar.TypeSymlink || tf == tar.TypeLink {
 										h.Linkname = "target/of/link"
 									}
-									if tf == tar.TypeChar {
+									if tf == tar.TypeChar || tf == tar.TypeBlock {
 										h.Devmajor, h.Devminor = 4, 64
 									}
 									if tf == tar.TypeDir {
